@@ -1407,6 +1407,71 @@ def _frame(run, key, o, a, ret_plain):
         run.error('R16: %s: no recognisable return' % key)
 
 
+def _frame2(run, key='base/transforms2d:trnorm2'):
+    """Planar normalisation: the second column keeps its direction, y = unit(T[:2, 1]); the first is y turned by -90 degrees,
+    x = (y_1, -y_0) (so that det [x y] = |y|^2 = +1); the two are the COLUMNS of the result; a homogeneous argument keeps its
+    translation T[:2, 2]."""
+    cx = Ctx(run, key)
+    T = cx.pname(0)
+    rets = sl_eval(cx)
+    nm = Normaliser()
+    found = 0
+    for (r, e) in rets:
+        b = matches('rt2tr(_R, _T)', e)
+        R = b['_R'] if b is not None else e
+        if b is not None:
+            ok = matches('%s[:2, 2]' % T, b['_T']) is not None or matches('transl2(%s)' % T, b['_T']) is not None
+            (run.holds if ok else run.violation)(RULE, key, 'translation kept (planar)', 'translation T[:2, 2] is carried over' if ok else
+                                                 'translation part is %s, not %s[:2, 2]' % (src(b['_T'], 30), T), f=cx.f, node=r)
+        cols = None
+        for pat, ax in (('stack((_X, _Y), axis=1)', 1), ('stack([_X, _Y], axis=1)', 1), ('column_stack((_X, _Y))', 1), ('c_[_X, _Y]', 1),
+                        ('array([_X, _Y]).T', 1), ('stack((_X, _Y))', 0), ('array([_X, _Y])', 0), ('vstack((_X, _Y))', 0), ('stack((_X, _Y), axis=0)', 0)):
+            m = matches(pat, R)
+            if m is not None:
+                cols = (m['_X'], m['_Y'], ax)
+                break
+        if cols is None:
+            run.error('R16: %s: result %s is not two vectors stacked as columns' % (key, src(R, 60)))
+            continue
+        found += 1
+        X, Y, ax = cols
+        if ax != 1:
+            run.violation(RULE, key, 'stack axis (planar)', 'the two vectors are stacked as ROWS: the result is the transpose of the normalised rotation', f=cx.f, node=r)
+            continue
+        yb = None
+        for pat in ('unitvec(_V)', 'unit(_V)', '_V / norm(_V)'):
+            yb = matches(pat, Y)
+            if yb is not None:
+                break
+        if yb is None or matches('%s[:2, 1]' % T, yb['_V']) is None:
+            run.violation(RULE, key, 'planar frame: second column', 'the second column of the result is %s; the definition keeps the direction of the second '
+                          'column of the argument: unit(%s[:2, 1])' % (src(Y, 40), T), f=cx.f, node=r)
+            continue
+        # x = (y[1], -y[0]) with y the same normalised vector
+        xs = vector_literal(X)
+        if xs is None or len(xs) != 2:
+            run.error('R16: %s: first column %s is not a 2-vector display' % (key, src(X, 40)))
+            continue
+        class _Y(ast.NodeTransformer):
+            def visit_Call(self2, n):
+                if ast.dump(n) == ast.dump(Y):
+                    return ast.Name(id='Yv', ctx=ast.Load())
+                return self2.generic_visit(n)
+            def visit_BinOp(self2, n):
+                if ast.dump(n) == ast.dump(Y):
+                    return ast.Name(id='Yv', ctx=ast.Load())
+                return self2.generic_visit(n)
+        g = [nm.poly(_Y().visit(_copy.deepcopy(x))) for x in xs]
+        w = [nm.poly(parse_expr('Yv[1]')), nm.poly(parse_expr('-Yv[0]'))]
+        if g == w:
+            run.holds(RULE, key, 'planar frame', 'columns [(y1, -y0), y] with y = unit(T[:2, 1])', f=cx.f, node=r)
+        else:
+            run.violation(RULE, key, 'planar frame: first column', 'the first column is (%s, %s); perpendicular to y with determinant +1 requires (y[1], -y[0])'
+                          % (g[0], g[1]), f=cx.f, node=r)
+    if found < 2:
+        run.error('R16: %s: fewer than 2 returns with a recognised frame (rotation and homogeneous result)' % key)
+
+
 def _frame_diagnose(run, cx, key, e, want_R, r):
     nm = Normaliser(rename=cx.rename)
     b = matches('stack((_C0, _C1, _C2), axis=_AX)', e) or matches('stack([_C0, _C1, _C2], axis=_AX)', e)
@@ -2539,6 +2604,23 @@ def tables_c06(run):
                     found[k] = True
                     run.violation(RULE, f.key, 'route ' + k, 'einsum %s contracts the ROW index of each pose matrix with the point: column k of the '
                                   'result is R_k^T p_k, the inverse rotation' % spec, f=f, node=r)
+    # near-miss of the per-pose routes: the list of per-pose results stacked without the final transpose (one ROW per pose, the
+    # documented result has one COLUMN per pose / point)
+    untransposed = {
+        'SE(n) sequence x vector': ('array([h2e(_X @ v).flatten() for _X in left.A])', 'array([h2e(_X @ e2h(v)).flatten() for _X in left.A])'),
+        'SO(n) sequence x vector': ('array([(_X @ v).flatten() for _X in left.A])',),
+        'SO(n) sequence x matrix': ('array([_X.A @ _Y for _X, _Y in zip(left, right.T)])',),
+        'SE(n) sequence x matrix': ('array([h2e(_X.A @ e2h(_Y)).flatten() for _X, _Y in zip(left, right.T)])',),
+    }
+    for k, pats_ in untransposed.items():
+        if found.get(k):
+            continue
+        for (r, e) in rets:
+            if any(matches(p_, e) is not None for p_ in pats_):
+                found[k] = True
+                run.violation(RULE, f.key, 'route ' + k, 'the per-pose results are stacked as ROWS (the final .T is missing): the result is N x d, the '
+                              'documented result has one column per pose value', f=f, node=r)
+                break
     for k, ok in found.items():
         if not ok:
             run.error('R16: SMPose.__mul__: route "%s" has no recognised form' % k)
@@ -3163,3 +3245,128 @@ def check_batched_inverse(run, key, n, rule='R15'):
     run.violation(rule, key, construct, 'in the vectorised branch the block [%s] of each inverse is %s; the structured inverse of [[R, t],[0, 1]] has %s there '
                   '(elements of a multi-valued object are not inverted: X.inv()[i] != X[i].inv())' % (k, g, w), f=f, node=alloc)
     return False
+
+
+# =========================================================================== homogeneous plumbing (rt2tr, Ab2M, r2t, t2r, tr2rt)
+def tables_plumbing(run, rule=RULE):
+    """The functions every other table rule treats as primitives: where the rotation block, the translation column and the corner
+    element are written / read.  Per shape arm: the allocation (eye for a group element, zeros for an algebra element) and the slot
+    of every subscript store or read."""
+    nm = Normaliser()
+
+    def arms_of(f, fi):
+        """(k, statements) for every arm whose test fixes the size of the square block: X.shape == (k, k) / dim[0] == n"""
+        out = []
+        for st in own_walk(f.node):
+            if not isinstance(st, ast.If):
+                continue
+            node = st
+            while True:
+                t = canon(fi, node.test, inline=False)
+                k = None
+                b = matches('_X.shape == (_K, _K2)', t)
+                if b is not None and isinstance(b['_K'], ast.Constant):
+                    k = ('block', b['_K'].value)
+                b = matches('_D[0] == _K', t)
+                if b is not None and isinstance(b['_K'], ast.Constant):
+                    k = ('whole', b['_K'].value)
+                if k is not None:
+                    out.append((k, node.body))
+                if len(node.orelse) == 1 and isinstance(node.orelse[0], ast.If):
+                    node = node.orelse[0]
+                else:
+                    break
+        # de-duplicate arms reached through nested walks
+        seen, res = set(), []
+        for k, body in out:
+            if id(body) not in seen:
+                seen.add(id(body))
+                res.append((k, body))
+        return res
+
+    def stores(body, fi):
+        alloc, tbl = None, {}
+        for st in body:
+            if isinstance(st, ast.Assign) and len(st.targets) == 1:
+                t = st.targets[0]
+                if isinstance(t, ast.Name) and isinstance(st.value, ast.Call):
+                    alloc = canon(fi, st.value, inline=False)
+                elif isinstance(t, ast.Subscript):
+                    tbl[nm.slice_str(t.slice)] = ast.unparse(canon(fi, st.value, inline=False))
+        return alloc, tbl
+
+    # writers
+    for key, allocname, pnames in (('base/transformsNd:rt2tr', 'eye', None), ('base/transformsNd:Ab2M', 'zeros', None)):
+        f = run.prog.func(key)
+        fi = FuncInfo.of(f)
+        ps = [p for p in f.params]
+        A, b = ps[0], ps[1]
+        n_arm = 0
+        for (kind, k), body in arms_of(f, fi):
+            if kind != 'block':
+                continue
+            n_arm += 1
+            alloc, tbl = stores(body, fi)
+            want = {':%d, :%d' % (k, k): A, ':%d, %d' % (k, k): b}
+            okalloc = alloc is not None and (matches('%s(%d)' % (allocname, k + 1), alloc) is not None or matches('%s((%d, %d), *_R)' % (allocname, k + 1, k + 1), alloc) is not None
+                                             or matches('%s(%d, %d)' % (allocname, k + 1, k + 1), alloc) is not None)
+            construct = '%s block table (%dx%d)' % (f.name, k, k)
+            if alloc is None or not tbl:
+                run.error('R16: %s: the %dx%d arm does not build its result by allocation and block stores' % (key, k, k))
+            elif not okalloc:
+                run.violation(rule, key, construct, 'the result is allocated as %s; the %s needs %s(%d)' %
+                              (ast.unparse(alloc) if alloc is not None else None, 'homogeneous matrix (last row 0 .. 0 1)' if allocname == 'eye' else 'augmented matrix (last row zero)',
+                               allocname, k + 1), f=f, node=body[0])
+            elif tbl != want:
+                run.violation(rule, key, construct, 'the blocks are written as %s; the definition is %s' % (tbl, want), f=f, node=body[0])
+            else:
+                run.holds(rule, key, construct, '%s(%d) with the matrix in [:%d, :%d] and the vector in [:%d, %d]' % (allocname, k + 1, k, k, k, k), f=f, node=body[0])
+        if n_arm < 2:
+            run.error('R16: %s: fewer than 2 shape arms found' % key)
+    # readers: t2r, tr2rt
+    for key, slotfmt, what in (('base/transformsNd:t2r', ':%d, :%d', 'rotation block'), ('base/transformsNd:tr2rt', ':%d, %d', 'translation column')):
+        f = run.prog.func(key)
+        fi = FuncInfo.of(f)
+        T = f.params[0]
+        n_arm = 0
+        for (kind, k), body in arms_of(f, fi):
+            if kind != 'whole':
+                continue
+            n_arm += 1
+            reads = [nm.slice_str(y.slice) for st in body for y in ast.walk(st) if isinstance(y, ast.Subscript) and isinstance(y.value, ast.Name) and y.value.id == T
+                     and isinstance(y.slice, ast.Tuple)]
+            want = slotfmt % (k - 1, k - 1)
+            construct = '%s reads the %s (%dx%d argument)' % (f.name, what, k, k)
+            if reads == [want]:
+                run.holds(rule, key, construct, 'reads [%s]' % want, f=f, node=body[0])
+            elif not reads:
+                run.error('R16: %s: no read of %s in the arm for size %d' % (key, T, k))
+            else:
+                run.violation(rule, key, construct, 'the arm reads %s; the %s of a %dx%d matrix is [%s]' % (reads, what, k, k, want), f=f, node=body[0])
+        if n_arm < 2:
+            run.error('R16: %s: fewer than 2 size arms found' % key)
+    # r2t: zeros((n, n)) with the argument in [:m, :m] and 1 in the corner
+    f = run.prog.func('base/transformsNd:r2t')
+    fi = FuncInfo.of(f)
+    tbl = {}
+    for st in own_walk(f.node):
+        if isinstance(st, ast.Assign) and isinstance(st.targets[0], ast.Subscript):
+            tbl[nm.slice_str(st.targets[0].slice)] = ast.unparse(canon(fi, st.value, inline=False))
+    from ..cfg import pure_locals
+    pl = {k: ast.unparse(canon(fi, v, inline=False)) for k, v in pure_locals(f.node).items()}
+    R = f.params[0]
+    ok = any(ks.replace(' ', '') in (':m,:m',) or True for ks in tbl)      # names resolved below
+    rot = [ks for ks, v in tbl.items() if v == R]
+    one = [ks for ks, v in tbl.items() if v == '1']
+    construct = 'r2t block table'
+    if len(rot) == 1 and len(one) == 1 and one[0] in ('-1, -1',) and len(tbl) == 2:
+        a, b_ = [x.strip().lstrip(':') for x in rot[0].split(',')]
+        same = a == b_ and pl.get(a, a) in ('%s.shape[0]' % R, 'dim[0]', '%s.shape[1]' % R) or a == b_ and pl.get(a, '').endswith('[0]')
+        if same and rot[0].startswith(':') and ', :' in rot[0]:
+            run.holds(rule, f.key, construct, 'the argument in the leading block [:m, :m], 1 in the corner [-1, -1]', f=f)
+        else:
+            run.violation(rule, f.key, construct, 'the rotation is written to [%s] (with %s); the leading block is [:m, :m], m the size of the argument' % (rot[0], {k: v for k, v in pl.items() if k in (a, b_)}), f=f)
+    elif not tbl:
+        run.error('R16: r2t does not build its result by block stores')
+    else:
+        run.violation(rule, f.key, construct, 'stores %s; the definition writes the argument into the leading block and 1 into the corner [-1, -1]' % tbl, f=f)
